@@ -377,5 +377,69 @@ func kdfTable(s *schemeOps, h, pw string) string {
 	for _, n := range ns {
 		nl = append(nl, coqZ(n))
 	}
+	if len(kdfEntries) < 4000 {
+		e := kdfEntry{tag: s.tag, key: append([]byte(nil), k...), ns: append([]int64(nil), ns...)}
+		for _, b := range bs {
+			e.bs = append(e.bs, append([]byte(nil), b...))
+		}
+		kdfEntries = append(kdfEntries, e)
+	}
 	return fmt.Sprintf("[(%d, %s, %s, %s)]", s.tag, coqList(bl), coqList(nl), coqBytes(k))
+}
+
+// kdfEntries: every (tag, byte arguments, numbers, key) the run obtained from the real Params + Key, in the argument
+// convention of the scheme models; C01 evaluates the extracted concrete derivation (Schemes/ConcreteBase.v: kdf_models)
+// on them.
+type kdfEntry struct {
+	tag int
+	bs  [][]byte
+	ns  []int64
+	key []byte
+}
+
+var kdfEntries []kdfEntry
+
+func (e kdfEntry) request() string {
+	parts := []string{"kdf", fmt.Sprint(e.tag), fmt.Sprint(len(e.bs))}
+	for _, b := range e.bs {
+		parts = append(parts, hx(b))
+	}
+	parts = append(parts, fmt.Sprint(len(e.ns)))
+	for _, n := range e.ns {
+		parts = append(parts, fmt.Sprint(n))
+	}
+	return strings.Join(parts, " ")
+}
+
+// checkKdfEntries runs the extracted concrete derivation on the collected entries (distinct ones, at most max) and
+// reports every key that differs.
+func checkKdfEntries(rep *report, max int) {
+	seen := map[string]bool{}
+	var reqs []string
+	var ents []kdfEntry
+	perTag := map[int]int{}
+	for _, e := range kdfEntries {
+		r := e.request()
+		if seen[r] || perTag[e.tag] >= max {
+			continue
+		}
+		seen[r] = true
+		perTag[e.tag]++
+		reqs = append(reqs, r)
+		ents = append(ents, e)
+	}
+	if len(reqs) == 0 {
+		return
+	}
+	res, _, err := modelPool(reqs, nil, 14)
+	if err != nil {
+		rep.ModelBroken = "the extracted concrete derivation cannot be evaluated: " + err.Error()
+		return
+	}
+	for i, got := range res {
+		if got != hx(ents[i].key) {
+			rep.ModelMismatches = append(rep.ModelMismatches, map[string]interface{}{"concrete_derivation_request": reqs[i], "implementation_key": hx(ents[i].key), "model_key": got})
+		}
+		rep.bump(fmt.Sprintf("concrete_kdf_tag%d", ents[i].tag))
+	}
 }
